@@ -62,6 +62,10 @@ type verifC13Exec struct {
 	maxAge       time.Duration
 	down         bool
 	downs        int
+	// finish variant
+	lockedAt time.Time
+	finishCh chan struct{}
+	finished bool
 	// traffic variant
 	lockWritesFail bool
 	lwfUsed        bool
@@ -93,10 +97,18 @@ func TestVerif_C13(t *testing.T) {
 	type variant struct {
 		quantum time.Duration
 		traffic bool
+		finish  bool
 	}
-	for _, v := range []variant{{4 * time.Minute, false}, {10 * time.Minute, false}, {4 * time.Minute, true}} {
-		quantum, traffic := v.quantum, v.traffic
+	for _, v := range []variant{{4 * time.Minute, false, false}, {10 * time.Minute, false, false}, {4 * time.Minute, true, false}, {4 * time.Minute, false, true}} {
+		quantum, traffic, finish := v.quantum, v.traffic, v.finish
 		name := fmt.Sprintf("holder/stall=%v", quantum)
+		if finish {
+			// the command may end at ANY step (action "holder-finishes"), in particular in the middle of a
+			// forced refresh of its stale lock: scripted environment - lock files cannot be written from
+			// minute 1 to minute 22 after the lock was taken, so the expiry monitor forces the stale-lock
+			// refresh at 22.5 min, which then succeeds unless the holder finishes meanwhile
+			name = "holder-finishes-any-time"
+		}
 		if traffic {
 			// the holder also uploads data through the connection-limiting (freezable) backend layer: no upload
 			// may be issued to the storage once the holder's newest lock file can be judged stale
@@ -104,7 +116,7 @@ func TestVerif_C13(t *testing.T) {
 		}
 		sc := xplore.Scenario{
 			Start: func(x *xplore.Exec) {
-				st := &verifC13Exec{store: gatebe.NewStoreFrom(base, nil), minAgeMargin: time.Hour}
+				st := &verifC13Exec{store: gatebe.NewStoreFrom(base, nil), minAgeMargin: time.Hour, finishCh: make(chan struct{})}
 				x.Data = st
 				armed := false
 				be := &gatebe.Backend{S: st.store, Proc: "H", Conns: 2, AtomicReplace: true,
@@ -130,6 +142,11 @@ func TestVerif_C13(t *testing.T) {
 						return op.Key.Type == backend.LockFile || (traffic && op.Key.Type == backend.PackFile && st.lwfUsed)
 					},
 					Alts: func(op *gatebe.Op) []string {
+						if finish && op.Kind == "Save" && op.Key.Type == backend.LockFile && !st.lockedAt.IsZero() {
+							if d := time.Since(st.lockedAt); d > time.Minute && d < 22*time.Minute {
+								return []string{"err"}
+							}
+						}
 						if st.down || (st.lockWritesFail && op.Kind == "Save" && op.Key.Type == backend.LockFile) {
 							return []string{"err"} // the backend is unreachable / the locks directory is not writable
 						}
@@ -146,9 +163,11 @@ func TestVerif_C13(t *testing.T) {
 						}
 						return
 					}
-					if op.Kind == "Remove" && ans == "cancelled" {
+					if op.Kind == "Remove" && ans == "cancelled" && !op.DeadOnArrival {
 						st.removeFailed = true // stalled beyond the 1-minute grace period of unlock and given up
 					}
+					// (a Remove that restic itself issues with an already cancelled context is restic's doing,
+					// not the environment's: a lock file it leaves behind is a leftover)
 					if ans == "err" {
 						if !st.down {
 							st.faults++
@@ -186,6 +205,7 @@ func TestVerif_C13(t *testing.T) {
 						return
 					}
 					st.lockCtx, st.holding = lctx, true
+					st.lockedAt = time.Now()
 					armed = true
 					if traffic {
 						x.Go("W", func() {
@@ -203,9 +223,10 @@ func TestVerif_C13(t *testing.T) {
 					}
 					// work for 75 minutes or until the lock is lost
 					select {
-					case <-time.After(verifC13Horizon(traffic)):
+					case <-time.After(verifC13Horizon(traffic || finish)):
 					case <-lctx.Done():
 						st.cancelled = true
+					case <-st.finishCh:
 					}
 					st.holding = false
 					unlock()
@@ -217,6 +238,12 @@ func TestVerif_C13(t *testing.T) {
 					return nil
 				}
 				var acts []xplore.Action
+				if finish {
+					if !st.finished {
+						acts = append(acts, xplore.Action{Name: "holder-finishes", Do: func(x *xplore.Exec) { st.finished = true; close(st.finishCh) }})
+					}
+					return acts
+				}
 				if traffic && !st.lwfUsed {
 					acts = append(acts, xplore.Action{Name: "lock-writes-start-failing", Do: func(x *xplore.Exec) { st.lockWritesFail, st.lwfUsed = true, true; st.faults++ }})
 				}
